@@ -93,7 +93,7 @@ PROPS['C01']['exhaustive'] = [('envx', 4)]
 PROPS['C07']['exhaustive'] = [('envx', 4)]
 PROPS['C09'] = dict(
     exhaustive=[('rmx', 4)],
-    modules=['SimProc.Props.C09', 'SimProc.Props.C11W'], prop_files=['SimProc/Props/C09.lean', 'SimProc/Props/C11W.lean'],
+    modules=['SimProc.Props.C09', 'SimProc.Props.C11W', 'SimProc.Props.C09W'], prop_files=['SimProc/Props/C09.lean', 'SimProc/Props/C11W.lean', 'SimProc/Props/C09W.lean'],
     families=[('rm', 400, 8000)],
     tags=tags(*BASE, 'r', 'h', 'hsum', 'rec'),
     monitors=M.MONITORS['C09'],
